@@ -443,17 +443,24 @@ func (s *controlledSelector) HandleSuccessResponse(
 	pair.state = CandidatePairStateSucceeded
 	s.log.Tracef("Found valid candidate pair: %s", pair)
 	if pair.nominateOnBindingSuccess {
+		// The deferred nomination is consumed by the response that makes the pair valid. A later
+		// response on this pair (the answer to a keepalive) must not apply it again after a newer
+		// nomination has moved the selection elsewhere.
+		pendingNominationValue := pair.pendingNominationValue
+		pair.nominateOnBindingSuccess = false
+		pair.pendingNominationValue = nil
+
 		selectedPair := s.agent.getSelectedPair()
 		switch {
-		case pair.pendingNominationValue != nil:
+		case pendingNominationValue != nil:
 			// A renomination that arrived before this pair was valid: last nomination wins
 			// regardless of priority, unless a newer value was accepted meanwhile.
-			if s.lastNomination != nil && *pair.pendingNominationValue == *s.lastNomination {
+			if s.lastNomination != nil && *pendingNominationValue == *s.lastNomination {
 				if selectedPair != pair {
 					s.agent.setSelectedPair(pair)
 				}
 			} else {
-				s.log.Tracef("Ignore superseded renomination %d of pair %s", *pair.pendingNominationValue, pair)
+				s.log.Tracef("Ignore superseded renomination %d of pair %s", *pendingNominationValue, pair)
 			}
 		case selectedPair == nil ||
 			(selectedPair != pair &&
